@@ -18,7 +18,17 @@ run_demo() { cp "$DEMO" "$PLACE/zz_demo_test.go"; go test -modfile=/tmp/mutkit/g
 echo "== demo WITHOUT patch" >> "$LOG"; run_demo; A=$?
 git apply "$OUT/patch.diff"
 echo "== build+vet touched: $PKGS" >> "$LOG"; go vet -modfile=/tmp/mutkit/go.mod $PKGS >> "$LOG" 2>&1; B=$?
-echo "== tests of touched packages" >> "$LOG"; go test -modfile=/tmp/mutkit/go.mod -count=1 $PKGS 2>&1 | tail -5 >> "$LOG"; C=${PIPESTATUS[0]}
+echo "== tests of touched packages" >> "$LOG"; go test -modfile=/tmp/mutkit/go.mod -count=1 $PKGS > /tmp/pkgt_$$.txt 2>&1; C=$?; tail -5 /tmp/pkgt_$$.txt >> "$LOG"
+if [ $C -ne 0 ]; then
+  # a package may have failures that also occur on the unchanged tree (tsi1: TestGenerateIndexFile_Uvarint needs
+  # testdata that is empty in git): the change passes "the existing tests" if the set of failing tests is the same
+  grep -- '^--- FAIL' /tmp/pkgt_$$.txt | sed 's/ (.*//' | sort > /tmp/pkgt_with_$$.txt
+  git stash -q; go test -modfile=/tmp/mutkit/go.mod -count=1 $PKGS 2>&1 | grep -- '^--- FAIL' | sed 's/ (.*//' | sort > /tmp/pkgt_without_$$.txt; git stash pop -q
+  echo "failing with the change: $(tr '\n' ' ' < /tmp/pkgt_with_$$.txt) | failing on the unchanged tree: $(tr '\n' ' ' < /tmp/pkgt_without_$$.txt)" >> "$LOG"
+  if [ -s /tmp/pkgt_with_$$.txt ] && cmp -s /tmp/pkgt_with_$$.txt /tmp/pkgt_without_$$.txt; then C=0; echo "same failures as the unchanged tree: accepted" >> "$LOG"; fi
+  rm -f /tmp/pkgt_with_$$.txt /tmp/pkgt_without_$$.txt
+fi
+rm -f /tmp/pkgt_$$.txt
 echo "== pinned suite" >> "$LOG"; go test -count=1 -vet=off $(cat /tmp/mutkit/baseline_pkgs.txt) 2>&1 | grep -v "^ok" | tail -5 >> "$LOG"; D=${PIPESTATUS[0]}
 echo "== demo WITH patch" >> "$LOG"; run_demo; E=$?
 git checkout -q -- . ; git clean -fdq -e OUT
